@@ -2,7 +2,7 @@
    MilliCPUToShares / MilliCPUToQuota and the CFS / shares constants are the definitions
    regenerated from pkg/koordlet/util/system/cgroup.go (coq/Gen). *)
 From Coq Require Import List ZArith Bool Permutation.
-From Verif Require Import C14.Model C14.Spec C14.Proofs C14.Proofs_Conv C14.Proofs_Pod C14.Proofs_Main C14.Proofs_Model C14.Rule C14.Codec C14.Proofs_Codec C14.Proofs_Rule.
+From Verif Require Import C14.Model C14.View C14.Spec C14.Proofs C14.Proofs_Conv C14.Proofs_Pod C14.Proofs_Main C14.Proofs_Model C14.Proofs_View C14.Rule C14.Codec C14.Proofs_Codec C14.Proofs_Rule.
 Import ListNotations.
 Open Scope Z_scope.
 
@@ -88,6 +88,48 @@ Theorem c14_only_d10 : forall g cs, prop_code g cs (run g cs) = 0 \/ d10_shape g
 Proof. exact only_d10. Qed.
 Print Assumptions c14_only_d10.
 
+(* ---- stored pods and request builders (View.v): the pod object carries the declared amounts in
+   its spec and in the extended-resource-spec annotation; the webhook rewrites the annotation, a
+   pod that bypassed it may carry none or a stale / foreign one ---- *)
+
+(* a pod admitted by the webhook: the three request builders select the same amounts *)
+Theorem c14_view_synced : forall recon g cs,
+  run_b recon g (attach cs (webhook cs)) = run g cs /\ handed recon (attach cs (webhook cs)) = cs.
+Proof. intros recon g cs. split; [apply view_synced|apply handed_synced]. Qed.
+Print Assumptions c14_view_synced.
+
+(* the reconciler reads the pod spec at BOTH levels: whatever the annotation says, a pod whose
+   containers all name a batch resource gets the values of its spec *)
+Theorem c14_reconciler_prefers_spec : forall g cs an, forallb listed cs = true ->
+  run_b true g (attach cs an) = run g cs.
+Proof. exact reconciler_prefers_spec. Qed.
+Print Assumptions c14_reconciler_prefers_spec.
+
+(* every builder, EVERY stored pod (any annotation): when the pod-level hook sees every container
+   the property holds with respect to the declaration the agent is handed *)
+Theorem c14_view_main : forall recon g p, complete recon p = true ->
+  prop_code g (handed recon p) (run_b recon g p) = 0.
+Proof. exact view_main. Qed.
+Print Assumptions c14_view_main.
+
+(* and otherwise the only way to fail is the D10 shape *)
+Theorem c14_view_only_d10 : forall recon g p,
+  prop_code g (handed recon p) (run_b recon g p) = 0
+  \/ d10_shape g (handed recon p) (run_b recon g p) = true.
+Proof. exact view_only_d10. Qed.
+Print Assumptions c14_view_only_d10.
+
+(* limit (not a finding): runtime-proxy / NRI requests carry no pod spec; with a stale annotation
+   the injected values are those of the annotation (correct for it), not of the spec, while the
+   reconciler restores the spec's values *)
+Theorem c14_annotation_only_stale_refuted :
+  exists g cs an, forallb listed cs = true
+    /\ prop_code g cs (run_b true g (attach cs an)) = 0
+    /\ prop_code g (handed false (attach cs an)) (run_b false g (attach cs an)) = 0
+    /\ prop_code g cs (run_b false g (attach cs an)) = 2.
+Proof. exact annotation_only_follows_annotation_refuted. Qed.
+Print Assumptions c14_annotation_only_stale_refuted.
+
 (* the same over the wire-level entry points the extracted runner executes: for EVERY integer
    input within the generator's guard (two successive rule updates are not neighbouring
    two-decimal values, so the rule holds the ratio the node advertises) the model's own observable
@@ -98,10 +140,23 @@ Proof. exact wire_main. Qed.
 Print Assumptions c14_wire_main.
 
 Theorem c14_wire_main_listed : forall inp,
-  let '(g, gw, cs) := decode inp in
-  forallb listed cs = true -> ratio g = ratio gw -> prop_case inp (run_case inp) = 0.
+  let '(g, gw, _) := decode inp in
+  let '(recon, p) := decode_view inp in
+  complete recon p = true -> ratio g = ratio gw -> prop_case inp (run_case inp) = 0.
 Proof. exact wire_main_listed. Qed.
 Print Assumptions c14_wire_main_listed.
+
+(* inputs in the format before the stored-pod widening (no trailing amode) and amode 0 / 3 denote
+   a pod admitted by the webhook: the wire entry points run Model.run on the spec *)
+Theorem c14_wire_synced : forall mode q c prev k n t amode f,
+  amode <> 1 -> amode <> 2 ->
+  skipn (8 * Z.to_nat n) t = [] \/ skipn (8 * Z.to_nat n) t = amode :: f ->
+  let inp := mode :: q :: c :: prev :: k :: n :: t in
+  let cs := decode_ctrs (Z.to_nat n) t in
+  handed (fst (decode_view inp)) (snd (decode_view inp)) = cs
+  /\ forall g, run_b (fst (decode_view inp)) g (snd (decode_view inp)) = run g cs.
+Proof. exact decode_view_synced. Qed.
+Print Assumptions c14_wire_synced.
 
 (* the first ratio a fresh rule sees always takes effect *)
 Theorem c14_rule_fresh : forall k,
@@ -130,6 +185,18 @@ Example c14_nonvacuous_unlimited :
   run g cs = (mkRes (Some 517) (Some (-1)) (Some (-1)),
               [mkRes (Some 512) (Some 100000) (Some 200); mkRes (Some 5) (Some (-1)) (Some (-1))]).
 Proof. vm_compute. reflexivity. Qed.
+(* a stale annotation (quarter amounts) on a fully declared pod: the reconciler still injects the
+   spec's values at both levels; the proxy / NRI builders inject the annotation's *)
+Example c14_nonvacuous_stale :
+  let g := mkCfg true true (-100) in
+  let cs := [mkCtr (Some 4000) (Some 4000) (Some 800) (Some 800); mkCtr (Some 1000) (Some 1000) (Some 200) (Some 200)] in
+  let an := [Some (mkCtr (Some 1000) (Some 1000) (Some 200) (Some 200)); Some (mkCtr (Some 500) (Some 500) (Some 100) (Some 100))] in
+  complete true (attach cs an) = true /\ complete false (attach cs an) = true
+  /\ run_b true g (attach cs an) = (mkRes (Some 5120) (Some 500000) (Some 1000),
+        [mkRes (Some 4096) (Some 400000) (Some 800); mkRes (Some 1024) (Some 100000) (Some 200)])
+  /\ run_b false g (attach cs an) = (mkRes (Some 1536) (Some 150000) (Some 300),
+        [mkRes (Some 1024) (Some 100000) (Some 200); mkRes (Some 512) (Some 50000) (Some 100)]).
+Proof. vm_compute. repeat split. Qed.
 Example c14_nonvacuous_non_be : be (cfg_of_codes 4 0 150) = false /\ be (cfg_of_codes 1 0 150) = true.
 Proof. vm_compute. split; reflexivity. Qed.
 (* observation (outside the property's quantifier, see findings/C14-stale-normalization-ratio.md):
